@@ -61,6 +61,18 @@ let () =
         let s = bytes_of_hex f.(1) and rest = bytes_of_hex (if Array.length f > 2 then f.(2) else "-") in
         let r = (match f.(0) with "4" -> ipv4 s rest | "6" -> ipv6 s rest | _ -> ipaddr s rest) in
         out (b01 r ^ "\n")
+      | "W" ->   (* the decoder alone: every scalar value, then End or error; the_byte / the_char bookkeeping is done here *)
+        let s = bytes_of_hex f.(1) in
+        let total = List.length s in
+        let rec go l nch last =
+          (match l with
+           | [] -> out "E"; (last, nch)
+           | _ -> let at = total - List.length l in
+                  (match utf8_next l with
+                   | Some (v, r) -> out (Printf.sprintf "%d," (int_of_n v)); go r (nch + 1) at
+                   | None -> out "X"; (at, nch + 1))) in
+        let (b, c) = go s 0 0 in
+        out (Printf.sprintf " %d %d\n" b (if c > 0 then c - 1 else 0))
       | "H" ->   (* read extent of the access models (layer A): 1 + highest index read, under-read flag, code *)
         let s = bytes_of_hex f.(2) and rest = bytes_of_hex (if Array.length f > 3 then f.(3) else "-") in
         let full = s @ rest @ [tbl.(0)] in
